@@ -11,7 +11,7 @@
    budget directories (fresh process per command) against the same composition built from the real
    stage functions, plus setting-frame and missing-source metamorphic runs. *)
 From Coq Require Import String List Bool.
-From Tally Require Import Lib.Str C11.Model C11.Proofs.
+From Tally Require Import Lib.Str C11.Model C11.Proofs C11.Config C11.ConfigProofs.
 Import ListNotations.
 Open Scope list_scope.
 
@@ -102,6 +102,47 @@ Proof.
   - now apply missing_supplemental_reported.
 Qed.
 Print Assumptions c11_missing_source_isolated.
+
+(* ---- which rule mode, rule file and views `tally up` runs with: the decision table of config_loader.load_config, as an
+        executable model (C11/Config.v) over the finite facts that decide it.  The table has 384 rows; the theorems hold for
+        every row, and harness/c11.py runs load_config itself on every row and compares inside Coq. ---- *)
+Theorem c11_config_resolution :
+  forall f : facts,
+    let r := resolve f in
+    (* rule mode: most_specific only when spelled exactly so; any other value is reported and means first_match *)
+    (r_mode r = RMostSpecific <-> f_mode f = MKMost) /\
+    (In InvalidRuleMode (r_warnings r) <-> f_mode f = MKOther) /\
+    (* rules: the configured merchants_file when it exists; when it is configured but missing NO rules (and a warning),
+       whatever else lies in config/; the legacy merchant_categories.csv only when no merchants_file is configured *)
+    (r_merchants r = NewRules <-> f_merchants_key f = true /\ f_merchants_exists f = true) /\
+    (r_merchants r = LegacyCsv <-> f_merchants_key f = false /\ f_legacy_csv f = true) /\
+    (In MerchantsFileNotFound (r_warnings r) <-> f_merchants_key f = true /\ f_merchants_exists f = false) /\
+    (* views: only the configured views_file, only if it is there and parses; a stray config/views.rules never counts *)
+    (r_views r = true <-> f_views_key f = true /\ f_views f = VGood) /\
+    (In ViewsFileNotFound (r_warnings r) <-> f_views_key f = true /\ f_views f = VMissing) /\
+    (In ViewsError (r_warnings r) <-> f_views_key f = true /\ f_views f = VBroken).
+Proof. exact resolution_table. Qed.
+Print Assumptions c11_config_resolution.
+
+(* each resolved component is governed by its own keys/files only *)
+Theorem c11_config_frame :
+  forall f g : facts,
+    (f_mode f = f_mode g -> r_mode (resolve f) = r_mode (resolve g)) /\
+    (f_merchants_key f = f_merchants_key g /\ f_merchants_exists f = f_merchants_exists g /\ f_legacy_csv f = f_legacy_csv g ->
+       r_merchants (resolve f) = r_merchants (resolve g)) /\
+    (f_views_key f = f_views_key g /\ f_views f = f_views g -> r_views (resolve f) = r_views (resolve g)).
+Proof. exact resolve_frame. Qed.
+Print Assumptions c11_config_frame.
+
+(* the table is finite and complete: a boolean check over all rows IS a proof about every configuration *)
+Theorem c11_config_table_complete : (forall f, In f all_facts) /\ length all_facts = 384 /\ forallb spec_ok all_facts = true.
+Proof. exact (conj all_facts_complete (conj all_facts_length spec_ok_table)). Qed.
+Print Assumptions c11_config_table_complete.
+
+Example c11_config_example :     (* First_Match is not first_match; a missing merchants_file is not replaced by a stray CSV *)
+  resolve (mkFacts MKOther true false true true VMissing true)
+  = mkResolved RFirstMatch NoRules false [InvalidRuleMode; MerchantsFileNotFound; ViewsFileNotFound].
+Proof. reflexivity. Qed.
 
 (* ---- non-vacuity: a concrete instance (rows are numbers, a transaction is (source, row, rule-mode),
         totals = number of transactions) with a supplemental, a missing and an unreadable source ---- *)
